@@ -84,13 +84,20 @@ type checkRun struct {
 	smtDir    string
 }
 
+// sweepProps: properties decided over every function under contract, by obligation kind (plus the
+// clauses explicitly tagged with the property).
+var sweepProps = map[string]map[string]bool{
+	"C17": {"safety": true, "nil": true},                      // no panics on any input
+	"C18": {"lock": true, "immutable": true, "monitor": true}, // lock discipline
+}
+
 // generate runs the VC generator over the closure of functions carrying the property.
 func (cr *checkRun) generate() {
 	todo := []string{}
 	seen := map[string]bool{}
 	for _, name := range cr.specs.Order {
 		sp := cr.specs.Funcs[name]
-		if sp.Verify && specHasProp(sp, cr.prop) {
+		if sp.Verify && (specHasProp(sp, cr.prop) || sweepProps[cr.prop] != nil) {
 			todo = append(todo, name)
 			seen[name] = true
 		}
@@ -440,6 +447,15 @@ func runCheck(prop, tier string, writeBaseline, verbose bool, t0 time.Time) int 
 	}
 	cr.generate()
 	tGen := time.Since(t0)
+	if kinds := sweepProps[prop]; kinds != nil {
+		var keep []*Obligation
+		for _, o := range cr.obls {
+			if kinds[o.Kind] || hasProp(o.Props, prop) && o.Kind != "nil" && o.Kind != "safety" || o.Kind == "vacuity" {
+				keep = append(keep, o)
+			}
+		}
+		cr.obls = keep
+	}
 	cr.solveAll()
 	groups := groupObls(cr.obls)
 	cr.vacuityGuard(groups)
